@@ -14,6 +14,7 @@ import NflowsModel.Lemmas.TanhStable
 import NflowsModel.Lemmas.ARWhole
 import NflowsModel.Lemmas.TailsWhole
 import NflowsModel.Lemmas.StructureExecRQTails
+import NflowsModel.Lemmas.LinWhole
 /-!
 # C01 — the forward log-abs-det equals log |det Jacobian| of the map actually computed
 
@@ -291,5 +292,14 @@ theorem exec_made_rq_tails_row_logdet (e : Float → ℝ) (c : ElCfg) (hc : NF.S
     (NF.ARWhole.arForward (NF.realX e) c B a.F (NF.ARWhole.madeNet n W bias B ctxv g) x).ld[b]?
       = some (Real.log |LinearMap.det (L : (Fin a.F → ℝ) →ₗ[ℝ] (Fin a.F → ℝ))|) :=
   NF.ARWhole.made_rq_tails_row_logdet e c hc hp a n hbuild hmult W bias B ctxv g x hx hb hL
+
+/-- **End to end, linear spline forward**: inside every open bin the derivative of the executed value is `exp` of the executed
+    log-abs-det (hypotheses: the two `Float.log` constants are read as real logarithms) -/
+theorem linear_program_logdet (e : Float → ℝ) (box : Box) (eps : Float) (up : List ℝ) (hv : LinWhole.LinValid e box eps up)
+    (hlogK : e (Float.log (1.0 / up.length.toFloat)) = Real.log (1 / (up.length : ℝ)))
+    (hbl : e (boxLog box) = Real.log ((e box.top - e box.bottom) / (e box.right - e box.left)))
+    (k : ℕ) (hk : k < up.length) (x : ℝ) (h0 : LinWhole.xk e box up.length k < x) (h1 : x < LinWhole.xk e box up.length (k+1)) :
+    HasDerivAt (LinWhole.val e box eps up) (Real.exp (LinWhole.ld e box eps up x)) x :=
+  LinWhole.val_hasDerivAt_x hv hlogK hbl k hk x h0 h1
 
 end Properties.C01
